@@ -14,24 +14,33 @@
 EXTENDS Rat, TLC, FiniteSets
 
 \* ------------------------------------------------------------------ Gaussian rationals
+\* rational + and * that reduce before multiplying (same values as Rat!Add / Rat!Mul on normalised arguments, but the
+\* intermediate integers stay near the size of the result: TLC integers are 32-bit and TLC stops on overflow)
+RAdd(a, b) == LET g == GCD(a[2], b[2]) IN Norm(a[1] * (b[2] \div g) + b[1] * (a[2] \div g), (a[2] \div g) * b[2])
+RMul(a, b) == IF a[1] = 0 \/ b[1] = 0 THEN Zero
+              ELSE LET g1 == GCD(Abs(a[1]), b[2])  g2 == GCD(Abs(b[1]), a[2])
+                   IN <<(a[1] \div g1) * (b[1] \div g2), (a[2] \div g2) * (b[2] \div g1)>>
+RSub(a, b) == RAdd(a, Neg(b))
 GZ == <<Zero, Zero>>
 G1 == <<One, Zero>>
 GInt(a, b) == <<FromInt(a), FromInt(b)>>
-GAdd(x, y) == <<Add(x[1], y[1]), Add(x[2], y[2])>>
+GAdd(x, y) == <<RAdd(x[1], y[1]), RAdd(x[2], y[2])>>
 GNeg(x) == <<Neg(x[1]), Neg(x[2])>>
 GSub(x, y) == GAdd(x, GNeg(y))
-GMul(x, y) == <<Sub(Mul(x[1], y[1]), Mul(x[2], y[2])), Add(Mul(x[1], y[2]), Mul(x[2], y[1]))>>
+GMul(x, y) == IF IsZero(x[2]) /\ IsZero(y[2]) THEN <<RMul(x[1], y[1]), Zero>>
+              ELSE <<RSub(RMul(x[1], y[1]), RMul(x[2], y[2])), RAdd(RMul(x[1], y[2]), RMul(x[2], y[1]))>>
 GConj(x) == <<x[1], Neg(x[2])>>
-GAbs2(x) == Add(Mul(x[1], x[1]), Mul(x[2], x[2]))
+GAbs2(x) == RAdd(RMul(x[1], x[1]), RMul(x[2], x[2]))
 GIsZero(x) == IsZero(x[1]) /\ IsZero(x[2])
-GInv(x) == LET n == GAbs2(x) IN <<Div(x[1], n), Div(Neg(x[2]), n)>>          \* x # 0
+GInv(x) == LET n == Inv(GAbs2(x)) IN <<RMul(x[1], n), RMul(Neg(x[2]), n)>>   \* x # 0
 GDiv(x, y) == GMul(x, GInv(y))                                                 \* y # 0
 GIsReal(x) == IsZero(x[2])
 GIsInteger(x) == GIsReal(x) /\ x[1][2] = 1          \* the value is a (real) integer, whatever type carries it
 GIntValue(x) == x[1][1]
-RECURSIVE GIPow(_, _), GSumSeq(_)
+RECURSIVE GIPow(_, _), GSumTo(_, _)
 GIPow(x, k) == IF k = 0 THEN G1 ELSE GMul(x, GIPow(x, k - 1))                  \* k >= 0
-GSumSeq(s) == IF Len(s) = 0 THEN GZ ELSE GAdd(GSumSeq(SubSeq(s, 1, Len(s) - 1)), s[Len(s)])
+GSumTo(s, n) == IF n = 0 THEN GZ ELSE GAdd(GSumTo(s, n - 1), s[n])
+GSumSeq(s) == GSumTo(s, Len(s))
 MinusOne == GInt(-1, 0)
 
 \* ------------------------------------------------------------------ arrays
@@ -46,17 +55,20 @@ IsMatrix(a) == Len(a.sh) = 2
 IsTensor(a) == Len(a.sh) >= 3
 IsSquare(a) == Len(a.sh) = 2 /\ a.sh[1] = a.sh[2]
 WellFormed(a) == Len(a.e) = SizeOf(a.sh) /\ \A i \in 1..Len(a.sh) : a.sh[i] >= 1
+\* TLC keeps  [i \in 1..n |-> e]  as an unevaluated closure and re-evaluates e at every application; SubSeq turns it
+\* into an explicit tuple once (without this, nested products are re-computed exponentially often)
+Tup(f, n) == SubSeq(f, 1, n)
 \* arrays given with Gaussian-integer entries <<re, im>> (the form used in generated cases)
-Lift(a) == [sh |-> a.sh, e |-> [i \in 1..Len(a.e) |-> GInt(a.e[i][1], a.e[i][2])]]
-Map1(a, F(_)) == [sh |-> a.sh, e |-> [i \in 1..Len(a.e) |-> F(a.e[i])]]
-Map2(a, b, F(_, _)) == [sh |-> a.sh, e |-> [i \in 1..Len(a.e) |-> F(a.e[i], b.e[i])]]
+Lift(a) == [sh |-> a.sh, e |-> Tup([i \in 1..Len(a.e) |-> GInt(a.e[i][1], a.e[i][2])], Len(a.e))]
+Map1(a, F(_)) == [sh |-> a.sh, e |-> Tup([i \in 1..Len(a.e) |-> F(a.e[i])], Len(a.e))]
+Map2(a, b, F(_, _)) == [sh |-> a.sh, e |-> Tup([i \in 1..Len(a.e) |-> F(a.e[i], b.e[i])], Len(a.e))]
 Scale(g, a) == Map1(a, LAMBDA x : GMul(g, x))
 Negate(a) == Map1(a, GNeg)
 IsZeroScalar(a) == IsScalar(a) /\ GIsZero(a.e[1])
 Collapse(a) == IF Len(a.e) = 1 THEN Scalar(a.e[1]) ELSE a       \* number-like results are numbers
 
 At(a, i, j) == a.e[(i - 1) * a.sh[2] + j]
-MkMat(m, n, F(_, _)) == [sh |-> <<m, n>>, e |-> [k \in 1..(m * n) |-> F(((k - 1) \div n) + 1, ((k - 1) % n) + 1)]]
+MkMat(m, n, F(_, _)) == [sh |-> <<m, n>>, e |-> Tup([k \in 1..(m * n) |-> F(((k - 1) \div n) + 1, ((k - 1) % n) + 1)], m * n)]
 Identity(n) == MkMat(n, n, LAMBDA i, j : IF i = j THEN G1 ELSE GZ)
 Transpose(a) == MkMat(a.sh[2], a.sh[1], LAMBDA i, j : At(a, j, i))
 MatMul(a, b) == MkMat(a.sh[1], b.sh[2],
@@ -202,7 +214,7 @@ FlagChain(os, ops, neg) == IF FirstErr(os) # 0 THEN os[FirstErr(os)] ELSE FlagSt
 
 \* a chain with at most one parenthesised group  x1 .. (xp .. xq) .. xn   (grp = <<p, q>>, <<0, 0>> for none)
 GroupedChain(xs, ops, grp, neg) ==
-  LET os == [i \in 1..Len(xs) |-> Val(xs[i])] IN
+  LET os == Tup([i \in 1..Len(xs) |-> Val(xs[i])], Len(xs)) IN
   IF grp[1] = 0 THEN ChainProduct(os, ops, neg)
   ELSE LET p == grp[1]  q == grp[2]
            inner == ChainProduct(SubSeq(os, p, q), SubSeq(ops, p, q - 1), neg)
@@ -268,7 +280,7 @@ LawDetMul(x, y) == (IsSquare(x) /\ IsSquare(y) /\ x.sh = y.sh /\ x.sh[1] > 1) =>
                      Det(MatMul(x, y)) = GMul(Det(x), Det(y))
 \* chains: counting rule = flag rule; two-element chains are the binary operator; three vectors are always refused
 LawChain(xs, ops, neg) ==
-  LET os == [i \in 1..Len(xs) |-> Val(xs[i])] IN
+  LET os == Tup([i \in 1..Len(xs) |-> Val(xs[i])], Len(xs)) IN
   /\ SameOutcome(ChainProduct(os, ops, neg), FlagChain(os, ops, neg))
   /\ Len(xs) = 2 => SameOutcome(ChainProduct(os, ops, neg), Op(ops[1], xs[1], xs[2], neg))
   /\ Cardinality({i \in 1..Len(xs) : IsVector(xs[i])}) >= 3 => IsErr(ChainProduct(os, ops, neg))
